@@ -174,7 +174,17 @@ fn has_unsupported(items: &[Sx]) -> Option<String> {
 }
 
 /// One request per user function of the program: `C01.vfn \t source \t function \t argument vectors \t - \t <ir>`.
-pub fn vrun_program(src: &str, only: Option<(&str, &[Vec<VV>])>, nvec: usize, rng: &mut Rng, out: &mut Out, hist: &mut Hist) {
+pub fn vrun_program(src: &str, only: Option<(&str, &[Vec<VV>])>, nvec: usize, rng: &mut Rng, out: &mut Out, hist_all: &mut Hist) {
+    // the distribution of this stream is reported under its own prefix
+    let mut local = Hist::default();
+    vrun_program_inner(src, only, nvec, rng, out, &mut local);
+    for (k, n) in &local.0 {
+        let key = if k.starts_with("v:") { k.clone() } else { format!("v:{}", k) };
+        *hist_all.0.entry(key).or_insert(0) += *n;
+    }
+}
+
+fn vrun_program_inner(src: &str, only: Option<(&str, &[Vec<VV>])>, nvec: usize, rng: &mut Rng, out: &mut Out, hist: &mut Hist) {
     let src1 = one_line(src);
     let p = match vprepare(src, hist) {
         Ok(p) => p,
